@@ -8,7 +8,7 @@ use serde_json::json;
 use ta::errors::TaError;
 use ta::{Close, DataItem, High, Low, Open, Volume};
 
-pub const RULE: &str = "EXHAUSTIVE: all 10^5 five-tuples over the lattice {-inf,-2,-1,-0.0,0.0,1,2,3,+inf,NaN} for (open,high,low,close,volume) x all 32 subsets of the five setters (in canonical order); for complete subsets on the 10^3-tuple sub-lattice {-1,0.0,1,2,NaN,...} additionally all 120 setter orders, and programs with repeated setters (the last value must win; every field first set to each of the ten lattice values); every sequence of setter calls of length <= 6 (8 thorough) over the five setters (repeated calls, proper subsets called many times), with a consistent and an inconsistent value assignment. RANDOM: 2*10^6 (quick) / 4*10^7 (thorough) finite tuples (consistent and inconsistent). Oracle (IEEE comparisons evaluated by the harness): Incomplete iff some setter was never called; else Invalid iff not (l<=o && l<=c && l<=h && h>=o && h>=c && v>=0); else Ok and the five getters return the last value set bit-exactly, clone == item, an existing item assigned with clone_from == item; the five price traits called through a generic bound must return the same bits (observed directly, independent of any indicator). Every (tuple, subset, order) is a distinct case by construction; non-trivial = all of them (the rule has no trivial cases: each exercises a different branch combination).";
+pub const RULE: &str = "EXHAUSTIVE: all 10^5 five-tuples over the lattice {-inf,-2,-1,-0.0,0.0,1,2,3,+inf,NaN} for (open,high,low,close,volume) x all 32 subsets of the five setters (in canonical order); for complete subsets on the 10^3-tuple sub-lattice {-1,0.0,1,2,NaN,...} additionally all 120 setter orders, and programs with repeated setters (the last value must win; every field first set to each of the ten lattice values); every sequence of setter calls of length <= 6 (8 thorough) over the five setters (repeated calls, proper subsets called many times), with a consistent and an inconsistent value assignment. NEIGHBOURS: for 8 anchors all 3^4 price tuples over the anchor and the floats just below and above it (one ulp outside the range is outside) and degenerate ranges with the body elsewhere. RANDOM: 2*10^6 (quick) / 4*10^7 (thorough) finite tuples (consistent and inconsistent). Oracle (IEEE comparisons evaluated by the harness): Incomplete iff some setter was never called; else Invalid iff not (l<=o && l<=c && l<=h && h>=o && h>=c && v>=0); else Ok and the five getters return the last value set bit-exactly, clone == item, an existing item assigned with clone_from == item; the five price traits called through a generic bound must return the same bits (observed directly, independent of any indicator). Every (tuple, subset, order) is a distinct case by construction; non-trivial = all of them (the rule has no trivial cases: each exercises a different branch combination).";
 
 pub const LATTICE: [f64; 10] = [f64::NEG_INFINITY, -2.0, -1.0, -0.0, 0.0, 1.0, 2.0, 3.0, f64::INFINITY, f64::NAN];
 
@@ -305,8 +305,44 @@ fn run_random(ctx: &Ctx) -> Report {
     })
 }
 
+/// Neighbouring floats: the comparisons are exact, so a price one ulp outside the range is outside it. For
+/// each anchor a in {0.3, 1.0, 1.5, 100.1, 1e-20, 0.0, -2.5, 6e15} all 3^4 price tuples over {a-, a, a+} (the
+/// floats just below and above a), plus tuples whose high == low while open == close lies elsewhere, with
+/// volumes {0, -0.0, 1, f64::MIN_POSITIVE, -f64::MIN_POSITIVE}.
+fn run_neighbours(_ctx: &Ctx) -> Report {
+    let mut rep = Report::new();
+    let next_up = |x: f64| if x == 0.0 { f64::from_bits(1) } else if x > 0.0 { f64::from_bits(x.to_bits() + 1) } else { f64::from_bits(x.to_bits() - 1) };
+    let next_down = |x: f64| if x == 0.0 { -f64::from_bits(1) } else if x > 0.0 { f64::from_bits(x.to_bits() - 1) } else { f64::from_bits(x.to_bits() + 1) };
+    for a in [0.3f64, 1.0, 1.5, 100.1, 1e-20, 0.0, -2.5, 6e15] {
+        let vals = [next_down(a), a, next_up(a)];
+        for o in vals {
+            for h in vals {
+                for l in vals {
+                    for c in vals {
+                        for v in [0.0, -0.0, 1.0, f64::MIN_POSITIVE, -f64::MIN_POSITIVE] {
+                            check_program(&mut rep, &[(0, o), (1, h), (2, l), (3, c), (4, v)], "neighbours");
+                            rep.distinct_by_construction += 1;
+                        }
+                    }
+                }
+            }
+        }
+        // a degenerate range with the body elsewhere
+        for body in [next_up(a), next_down(a), a + 2.0, a - 2.0] {
+            check_program(&mut rep, &[(0, body), (1, a), (2, a), (3, body), (4, 1.0)], "neighbours");
+            check_program(&mut rep, &[(1, a), (3, body), (2, a), (0, body), (4, 0.0)], "neighbours");
+            rep.distinct_by_construction += 2;
+        }
+    }
+    rep.count("neighbour_tuples");
+    rep
+}
+
 pub fn run(ctx: &Ctx) -> Report {
     let mut rep = Report::new();
+    if ctx.phase_enabled("neighbours") {
+        rep.merge(run_neighbours(ctx));
+    }
     if ctx.phase_enabled("lattice") {
         rep.merge(run_lattice(ctx));
     }
